@@ -26,6 +26,14 @@ def run(pid, tier, seed, own):
         traces += genprops.collect(rep, pool, tier, seed + 6, perturb=False, nseeds=2, maxn=6, rich=False, types={'spa'},
                                    counts={'n1': {3}, 'n2': {4, 6}, 'n3': {1, 2}}, label='lecturers with 3-6 projects, lists up to 6',
                                    only_twosided=two, every=2 if q else 1)
+        # long lists (text beyond 75-80 characters, entries with one and two digits): second-side lists ranking 30 first-side
+        # agents, first-side lists of up to 30 entries
+        traces += genprops.collect(rep, pool, tier, seed + 7, perturb=False, nseeds=1, maxn=2, rich=False, numinsts={1},
+                                   counts={'n1': {30}, 'n2': {2}, 'n3': {1}}, label='long second-side lists: 30 first-side agents, 2 second-side',
+                                   only_twosided=two, every=3 if q else 1)
+        traces += genprops.collect(rep, pool, tier, seed + 8, perturb=False, nseeds=1, maxn=30, minlen=28, rich=False, numinsts={1},
+                                   counts={'n1': {2}, 'n2': {30}, 'n3': {2}}, label='long first-side lists: 28-30 of 30',
+                                   only_twosided=two, every=2 if q else 1)
         if 'C08' in own:
             # many instances in one run: file names 0.txt .. 11.txt
             traces += genprops.collect(rep, pool, tier, seed + 4, perturb=False, nseeds=1, maxn=1, rich=False, numinsts={12},
